@@ -105,7 +105,10 @@ func (fs *ReadOnlyFS) copyFile(name string, f hackpadfs.File, info hackpadfs.Fil
 	}
 	buf := make([]byte, 512)
 	_, err = io.CopyBuffer(destFileWriter, f, buf)
-	return err
+	if err != nil {
+		return err
+	}
+	return destFile.Close() // a failed close means the cached copy may be incomplete
 }
 
 // Stat implements hackpadfs.StatFS
